@@ -340,6 +340,9 @@ CHOICE_decode_ber(const asn_codec_ctx_t *opt_codec_ctx,
 					ADVANCE(2);
 					ctx->left++;
 					continue;
+				} else {
+					/* <0> followed by something else */
+					RETURN(RC_FAIL);
 				}
 			} else {
 				ASN_DEBUG("Unexpected continuation in %s",
